@@ -24,12 +24,24 @@ HUGE_PROFILE = {"huge": True, "first_ops": ["shift_common_v"], "ops": ["shift_co
                                         "column_stack", "update", "sliced", "observe"]}
 
 
+MEDIUM_PROFILE = {"medium": True, "append_rows": [3, 6, 12, 12, 40], "ops": ["append", "append", "column_stack", "sliced", "slices1d", "reindexed", "update", "copy",
+                                          "filtered", "observe", "shift_common_v"],
+                  # grow, derive an index that may share storage, then grow both the source and the derived one
+                  "first_ops_choices": [["append", "sliced", "append", "append", "append", "append"],
+                                        ["append", "column_stack", "append", "append", "append", "append"],
+                                        ["update", "reindexed", "append", "append", "append", "append"],
+                                        ["append", "slices1d", "append", "append", "append", "append"], []]}
+
+
 def shards(tier):
     if tier == "quick":
         return [{"label": "hist%d" % i, "n": 1200} for i in range(12)] + [{"label": "huge", "n": 4, "huge": True, "mem_gib": 12},
-                                                                               {"label": "giant", "n": 60, "giant": True}]
+                                                                               {"label": "giant", "n": 60, "giant": True},
+                                                                               {"label": "medium0", "n": 40, "medium": True},
+                                                                               {"label": "medium1", "n": 40, "medium": True}]
     return [{"label": "hist%d" % i, "n": 60000} for i in range(15)] + [{"label": "huge", "n": 60, "huge": True, "mem_gib": 12},
-                                                                                 {"label": "giant", "n": 1500, "giant": True}]
+                                                                                 {"label": "giant", "n": 1500, "giant": True}] + \
+           [{"label": "medium%d" % i, "n": 500, "medium": True} for i in range(4)]
 
 
 def run_shard(ctx):
@@ -40,6 +52,10 @@ def run_shard(ctx):
     if ctx.shard.get("huge"):
         histories.run_histories(ctx, ASPECT, ctx.shard["n"], min_steps=2, max_steps=5, profile=HUGE_PROFILE)
         ctx.count("class:index_with_more_than_2^22_cells", ctx.shard["n"])
+        return
+    if ctx.shard.get("medium"):
+        histories.run_histories(ctx, ASPECT, ctx.shard["n"], min_steps=6, max_steps=14, profile=MEDIUM_PROFILE)
+        ctx.count("class:entries_of_more_than_1000_row_ids", ctx.shard["n"])
         return
     histories.run_histories(ctx, ASPECT, ctx.shard["n"])
 
